@@ -83,7 +83,7 @@ def fixed_type(rng, depth, enums, structs, allow_var=False):
 
 def gen_layout_desc(rng, collide=False):
     d = gen.Desc()
-    d.enums = gen.gen_enums(rng, rng.randint(0, 2))
+    d.enums = gen.gen_enums(rng, rng.randint(0, 2), big=True)  # maxima up to 2^64-1: widths where float arithmetic is at its limits
     enames = [e[0] for e in d.enums]
     nstructs = rng.randint(1, 4)
     for s in range(nstructs):
